@@ -12,7 +12,7 @@ props = sys.argv[1:] or sorted({s["property"] for s in st.load_corpus()})
 known = {k["key"] for k in load_known() if k.get("status") == "open"}
 tot = {"fired": 0, "mutants": 0, "silent": 0, "benign": 0, "skipped": 0}
 for p in props:
-    r = st.run(p, "/repo", lambda repo, p=p: chk.merged_findings(chk.analyse(p, repo, "quick", ["dev"])[0]), known_keys=known)
+    r = st.run(p, "/repo", None, known_keys=known)
     print("%s: mutants %d/%d fired, benign %d/%d silent, %d skipped" % (p, r["mutants_fired"], r["mutants"], r["benign_silent"], r["benign"], r["skipped"]))
     for x in r["results"]:
         if x["status"] in ("MISSED", "FALSE-ALARM", "skipped"):
